@@ -34,8 +34,8 @@ Theorem C12_masked_conv_clean : forall k (I : interp) (mask : px -> bool) (a b :
 Proof. exact masked_conv_clean. Qed.
 Print Assumptions C12_masked_conv_clean.
 
-(* THE PROPERTY, for every function in the generated list (regional_maximum: the ties_are_ok pass with the
-   default structure; openlines: three angles written out — see TRUSTED in harness/props/c12.py) *)
+(* THE PROPERTY, for every function in the generated list (regional_maximum: structures of radius 1; openlines: three
+   angles written out — see TRUSTED in harness/props/c12.py) *)
 Theorem C12_listed_noninterfering : Forall noninterfering listed_progs.
 Proof. exact (all_accepted_noninterfering listed_progs listed_accepted). Qed.
 Print Assumptions C12_listed_noninterfering.
